@@ -1345,6 +1345,146 @@ fn nonce_session(r: &mut Report, rng: &mut Rng, place: Value, steps: u64) {
 // ---------------------------------------------------------------------------------------------
 // literal cases (readable witnesses, run through the very same monitors before the random work)
 
+// ---------------------------------------------------------------------------------------------
+// E: restoring the signer's state from the external store (vls-util ExternalPersistWithHelper::init_state)
+// ---------------------------------------------------------------------------------------------
+
+#[derive(Clone, Copy, Debug, PartialEq)]
+enum Tamper {
+    Honest,
+    /// every record stripped from the reply; the server's tag for the full reply kept
+    DropAllKeepTag,
+    /// every record stripped, tag recomputed by someone without the secret (random)
+    DropAllRandomTag,
+    /// every record stripped, empty tag
+    DropAllEmptyTag,
+    DropLast,
+    SwapTwoValues,
+    OlderVersionOfOne,
+    /// the reply the server gave to an earlier request (other nonce)
+    StaleReply,
+}
+
+struct FakeLss {
+    secret: [u8; 32],
+    records: Vec<Rec>,
+    /// what the store held at the time of an earlier request, with the nonce of that request
+    earlier: (Vec<u8>, Vec<Rec>),
+    tamper: Tamper,
+    rnd: [u8; 32],
+}
+
+#[async_trait::async_trait]
+impl vls_frontend::external_persist::ExternalPersist for FakeLss {
+    async fn put(&self, _mutations: Mutations, _client_hmac: &[u8]) -> Result<Vec<u8>, vls_frontend::external_persist::Error> {
+        Err(vls_frontend::external_persist::Error::NotAvailable)
+    }
+
+    async fn get(&self, _key_prefix: String, nonce: &[u8]) -> Result<(Mutations, Vec<u8>), vls_frontend::external_persist::Error> {
+        let honest = to_mutations(&self.records);
+        let honest_tag = compute_shared_hmac(&self.secret, nonce, &honest).to_vec();
+        let reply = |l: &[Rec], tag: Vec<u8>| Ok((to_mutations(l), tag));
+        match self.tamper {
+            Tamper::Honest => Ok((honest, honest_tag)),
+            Tamper::DropAllKeepTag => reply(&[], honest_tag),
+            Tamper::DropAllRandomTag => reply(&[], self.rnd.to_vec()),
+            Tamper::DropAllEmptyTag => reply(&[], vec![]),
+            Tamper::DropLast => reply(&self.records[..self.records.len() - 1], honest_tag),
+            Tamper::SwapTwoValues => {
+                let mut l = self.records.clone();
+                let n = l.len();
+                let v0 = l[0].val.clone();
+                l[0].val = l[n - 1].val.clone();
+                l[n - 1].val = v0;
+                reply(&l, honest_tag)
+            }
+            Tamper::OlderVersionOfOne => {
+                let mut l = self.records.clone();
+                l[0].ver = l[0].ver.wrapping_sub(1);
+                l[0].val = self.rnd[..5].to_vec();
+                reply(&l, honest_tag)
+            }
+            Tamper::StaleReply => {
+                let m = to_mutations(&self.earlier.1);
+                let t = compute_shared_hmac(&self.secret, &self.earlier.0, &m).to_vec();
+                Ok((m, t))
+            }
+        }
+    }
+
+    async fn info(&self) -> Result<vls_frontend::external_persist::Info, vls_frontend::external_persist::Error> {
+        Err(vls_frontend::external_persist::Error::NotAvailable)
+    }
+}
+
+/// One restore: the signer asks the store for its whole state under a fresh nonce and installs the reply only if
+/// it authenticates.  The host between signer and store may hand over anything; whatever it hands over, the
+/// state installed must be exactly what the store holds, or the restore must fail.
+fn restore_session(r: &mut Report, rng: &mut Rng, place: Value) {
+    let secret = rng.bytes::<32>();
+    let mut records: Vec<Rec> = vec![];
+    let mut keys = BTreeSet::new();
+    for _ in 0..2 + rng.below(4) {
+        let mut x = gen_small_rec(rng, 6, 12);
+        if x.key.is_empty() || !keys.insert(x.key.clone()) {
+            continue;
+        }
+        x.ver = 1 + rng.below(5);
+        records.push(x);
+    }
+    if records.len() < 2 || records[0].val == records[records.len() - 1].val {
+        r.count("restore.generator_skipped");
+        return;
+    }
+    let mut earlier = records.clone();
+    earlier[0].ver -= 1;
+    earlier[0].val = rng.vec(4);
+    let tampers = [Tamper::Honest, Tamper::DropAllKeepTag, Tamper::DropAllRandomTag, Tamper::DropAllEmptyTag, Tamper::DropLast, Tamper::SwapTwoValues, Tamper::OlderVersionOfOne, Tamper::StaleReply];
+    for tamper in tampers {
+        let lss = FakeLss { secret, records: records.clone(), earlier: (rng.vec(32), earlier.clone()), tamper, rnd: rng.bytes::<32>() };
+        let state = std::sync::Arc::new(Mutex::new(std::collections::BTreeMap::new()));
+        let st2 = state.clone();
+        let res = report::catch(move || {
+            let boxed: Box<dyn vls_frontend::external_persist::ExternalPersist> = Box::new(lss);
+            let ep = vls_util::persist::ExternalPersistWithHelper {
+                persist_client: std::sync::Arc::new(tokio::sync::Mutex::new(boxed)),
+                state: st2,
+                helper: ExternalPersistHelper::new(secret),
+            };
+            let rt = tokio::runtime::Builder::new_current_thread().build().expect("runtime");
+            rt.block_on(ep.init_state());
+        });
+        r.eval(1);
+        r.count(&format!("restore.{:?}.presented", tamper));
+        let installed: Vec<Rec> = state.lock().unwrap_or_else(|e| e.into_inner()).iter().map(|(k, (ver, val))| Rec { key: k.clone(), ver: *ver, val: val.clone() }).collect();
+        let mut want = records.clone();
+        want.sort();
+        let mut got = installed.clone();
+        got.sort();
+        r.distinct_str(&format!("E:{:?}:{}:{}", tamper, res.is_ok(), records.len().min(4)));
+        match (&res, tamper) {
+            (Ok(()), Tamper::Honest) => {
+                r.count("restore.honest.accepted");
+                if got != want {
+                    violate(r, "restore:honest-reply-installed-differently", || json!({"place": place, "store": list_json(&records), "installed": list_json(&installed)}));
+                }
+            }
+            (Err(p), Tamper::Honest) => {
+                r.count("restore.honest.REFUSED");
+                r.note(&format!("honest restore refused: {}", p.chars().take(100).collect::<String>()));
+            }
+            (Ok(()), t) => {
+                // accepted although the reply is not what the store holds
+                r.count(&format!("restore.{:?}.accepted", t));
+                if got != want {
+                    violate(r, &format!("restore:accepted-tampered-get-reply:{:?}", t), || json!({"place": place, "store": list_json(&records), "installed_state": list_json(&installed), "tampering": format!("{:?}", t)}));
+                }
+            }
+            (Err(_), t) => r.count(&format!("restore.{:?}.refused", t)),
+        }
+    }
+}
+
 fn literal_cases(r: &mut Report) {
     let mut rng = Rng::new(17);
     let place = json!({"literal": true});
@@ -1401,11 +1541,17 @@ fn main() {
         for c in 0..sessions {
             nonce_session(r, &mut rng, json!({"monitor": "D", "seed": cli.seed, "shard": i, "session": c}), 12);
         }
+        for c in 0..sessions * 4 {
+            restore_session(r, &mut rng, json!({"monitor": "E", "seed": cli.seed, "shard": i, "session": c}));
+        }
     });
     report.merge(sharded);
 
     // antecedents: every kind of presentation must have been made often enough
     for (k, min) in [
+        ("restore.honest.accepted", 200),
+        ("restore.DropAllKeepTag.presented", 200),
+        ("restore.StaleReply.presented", 200),
         ("value.prepared", 500),
         ("value.honest.accepted_as_written", 500),
         ("value.mac-bitflip.presented", 5000),
